@@ -18,6 +18,7 @@ import ScsiVerif.Std.Sense
 import ScsiVerif.Gen.Commands
 import ScsiVerif.Gen.Opcodes
 import ScsiVerif.Gen.Tables
+import ScsiVerif.Driver.StdOps
 /-! Request dispatch for the line-protocol driver. -/
 namespace Driver
 open Conv Proto
@@ -259,6 +260,7 @@ def cmdOp (toks : List String) : Option String :=
       | "readelementstatus" => Dec.readElementStatus d
       | "reporttargetportgroups" => Dec.reportTargetPortGroups d
       | "prreadfullstatus" => Dec.prReadFullStatus d
+      | "reportpriority" => Dec.reportPriority d
       | "readcd" => Dec.readCd d (arg "lba") (arg "tl") (arg "est") (arg "mcsb") (arg "c2ei") (arg "scsb")
       | _ => .error .notImplemented
     pure (PVText.showExceptPV r)
@@ -298,6 +300,9 @@ def step (s : State) (line : String) : State × String :=
   | some r => (s, r)
   | none =>
   match cmdOp toks with
+  | some r => (s, r)
+  | none =>
+  match StdOps.stdOp toks with
   | some r => (s, r)
   | none => (s, "bad-op")
 
